@@ -326,8 +326,9 @@ class Program:
     def language_guard(self) -> List[str]:
         """Facts the abstract semantics relies on (DESIGN E0). Returns list of problems."""
         problems = []
-        banned = {"__eq__", "__hash__", "__bool__", "__len__", "__getattr__", "__setattr__",
-                  "__getattribute__", "__ne__"}
+        # __eq__ / __ne__ on these classes are interpreted (comparisons dispatch to them); __hash__ only matters through
+        # equality-based container look-ups, which the interpreter performs with the modelled equality
+        banned = {"__bool__", "__len__", "__getattr__", "__setattr__", "__getattribute__"}
         roots = [NODE_ROOT, "BaseRule", "Token", "ExpressionParser", "Tokenizer", "TokenContext",
                  "ExpressionChangeRule", "FactorResult", "TermResult", "TreeLayout"]
         for c in self.classes.values():
@@ -335,7 +336,7 @@ class Program:
                 for m in c.methods:
                     if m in banned:
                         problems.append(f"{c.module.relpath}:{c.name} defines {m}")
-        modelled = {"__init__", "__str__", "__repr__", "__post_init__"}
+        modelled = {"__init__", "__str__", "__repr__", "__post_init__", "__eq__", "__ne__", "__hash__"}
         # implicit invocations the interpreter models for plain (non-node) objects
         modelled_plain = modelled | {"__eq__", "__ne__", "__hash__", "__bool__", "__len__", "__contains__", "__getitem__",
                                      "__setitem__", "__call__", "__lt__", "__le__", "__gt__", "__ge__", "__enter__", "__exit__"}
